@@ -221,7 +221,8 @@ func (calc *convexHullCalculator) padArray3(pts []float64) []float64 {
 		if i < len(pts) {
 			pad[i] = pts[i]
 		} else {
-			pad[i] = pts[0]
+			// pad with copies of the first coordinate
+			pad[i] = pts[i%calc.stride]
 		}
 	}
 	return pad
